@@ -70,8 +70,9 @@ def execute(c):
         else:
             v = (s1.intersect(s2) if k == "lens" else s1.union(s2)).get_volume()
     else:
-        s = VolSphere(buf(o), a)
-        if lib.vid(c) % 2 == 0:
+        hist_f = lib.vid(c) % 2 == 1             # history on the frustum (short-lived spheres) or on the sphere (short-lived frusta)
+        s = None if hist_f else VolSphere(buf(o), a)
+        if not hist_f:
             # a history: the same sphere object was first asked about short-lived frusta of other lengths and tapers (each freed before the next is made)
             for j in range(1, 4):
                 g = VolFrustumCone(o, a, o + d * (cc * (j + 1)), b * j / 2)
@@ -80,11 +81,14 @@ def execute(c):
                 del g
         f = VolFrustumCone(buf(o + d * cc), b, buf(o), a) if rev else VolFrustumCone(buf(o), a, buf(o + d * cc), b)
         built()
-        if lib.vid(c) % 2:
-            # a history: the same frustum object was first asked about short-lived spheres on its other end and on this end
+        if hist_f:
+            # a history: the same frustum object was first asked about short-lived spheres on its other end and on this end; the sphere that is
+            # judged is made afterwards (it may well get the address of one that is gone)
             VolSphere(f.c1 if rev else f.c2, b).intersect(f).get_volume()
             VolSphere(f.c1 if rev else f.c2, b).union(f).get_volume()
             VolSphere(f.c2 if rev else f.c1, a).intersect(f).get_volume()
+            s = VolSphere(buf(np.array(f.c2 if rev else f.c1)), a)
+            built()
         if k == "sphfru":
             v = s.intersect(f).get_volume()
         else:
